@@ -143,7 +143,8 @@ PROPS = {
             "termination of the two receive loops is not verified (depends on channel close)",
             "c10_coalesce, write_to_db (rule R16): `WriteEntry::write_to_db` of TypedWideColumnWrites and of TypedKeyOfSetWrites (nested loops over the hash maps) is proved to hand the serialization buffer exactly one operation per staged slot -- put/delete resp. insert_member/delete_member exactly as staged, with the staged key, element and value -- in some order of the (distinct) slots; the buffer is a type-erased ghost log (events ev_put/ev_del/ev_ins/ev_rem)",
             "c10_coalesce: what one batch carries -- TypedWideColumnWrites::insert and TypedKeyOfSetWrites::insert are proved to be last-writer-wins steps per key resp. per (key, element), and the steps compose (lemma_wide_step / lemma_set_step) to 'the batch holds the net effect of the staged operations in issue order'; std's HashMap Entry API is a trusted in-unit model (rule R15: Entry/OccupiedEntry/VacantEntry over the reborrowed map with prophecy contracts); keys obey the hash-key laws (axiom_key_types)",
-            "not under contract: WideColumnWrites::put / KeyOfSetWrites::put (TypeId-keyed maps of Box<dyn WriteEntry>, downcast), WriteBufferPool::get_buffer/return_buffer (stand-in: a buffer may be recycled only after `notified(its epoch)`), Drop for WriteBehind, WriteBehind::new; after_commit_worker IS under contract: every received batch is notified with its own epoch and only then recycled, or deactivated when shutting down (WriteBatch::after_commit itself -- maps of dyn WriteEntry -- is a stand-in raising the event `notified`)",
+            "c10_coalesce, the batch as a whole: WriteEntry (the object-safe trait behind `Box<dyn WriteEntry>`) carries a TRAIT contract -- write_to_db appends one admissible emission (`emits`) of the entry; both typed maps are proved to implement it (their `emits` = one operation per staged slot). Against that contract WideColumnWrites::write_to_db and KeyOfSetWrites::write_to_db (loops over HashMap::values() of dyn entries) are proved to let every entry of the map emit exactly once (each_entry_once), and WriteBatch::write_to_db to append exactly the wide-column entries' emissions followed by the key-of-set entries' emissions. Trusted std model (axiom_values): HashMap::values() yields the value of every key exactly once -- vstd only states the set of yielded values and their number; std::any::TypeId opaque, TypeId / WideColumnWritesID obey the hash-key laws (axiom_id_types)",
+            "not under contract: WideColumnWrites::put / KeyOfSetWrites::put (TypeId-keyed maps of Box<dyn WriteEntry>, downcast_mut), WriteBufferPool::get_buffer/return_buffer (stand-in: a buffer may be recycled only after `notified(its epoch)`), Drop for WriteBehind, WriteBehind::new; after_commit_worker IS under contract: every received batch is notified with its own epoch and only then recycled, or deactivated when shutting down (WriteBatch::after_commit itself -- maps of dyn WriteEntry -- is a stand-in raising the event `notified`)",
         ],
     },
     "C11": {
